@@ -96,7 +96,10 @@ def generate(ctx):
 def _impl_run(ctx, depth=3):
     cache = getattr(ctx, '_c14_run', {})
     if depth not in cache:
-        cache[depth] = ctx.run_impl('c14_routes.py', {'mode': 'run', 'explore': True, 'depth': depth}, timeout=300)['result']
+        # depth 3: the all-routes run of the tie and the oracle; depth 5 (failing-input search and thorough tier): deeper database
+        # scripts, plus ordinary accounts whose names a sloppy comparison could confuse with the auth service account
+        cache[depth] = ctx.run_impl('c14_routes.py', {'mode': 'run', 'explore': True, 'depth': depth, 'lookalikes': depth >= 5},
+                                    timeout=900)['result']
         ctx._c14_run = cache
     return cache[depth]
 
@@ -200,6 +203,7 @@ def _failures(impl):
         fails.append(Failure(f'{m} {p}|{cls}',
                              f'{m} {p} ({r["name"]}): a {cls} caller is not refused (outcome {c["outcome"]})',
                              {'method': m, 'path': r['path'], 'caller': c['caller'], 'ctx': c['ctx'], 'body': c['body'], 'answers': c['answers'],
+                              **({'username': c['username']} if 'username' in c else {}),
                               'caller_fields': ['authenticated', 'active', 'developer', 'username==auth'], 'ctx_fields': ['owner', 'member']},
                              'HTTP 401/403/404 or login redirect raised by an access check, no database write',
                              {'outcome': c['outcome'], 'handler_body_reached': c['body_reached'], 'user_filter_came_back_empty': c['filter_denied'],
@@ -208,7 +212,7 @@ def _failures(impl):
 
 
 def oracle(ctx, budget):
-    impl = _impl_run(ctx, 3 if budget <= 1 else 5)
+    impl = _impl_run(ctx, 3 if budget <= 1 and not ctx.thorough else 5)
     fails, n = _failures(impl)
     refused = sum(1 for r in impl for c in r['cases'] if not policy(r['method'], r['path'], c['caller'], c['ctx'])[0])
     return fails, {'evaluations': n, 'distinct_nontrivial': refused,
@@ -220,12 +224,14 @@ def oracle(ctx, budget):
 def replay(ctx, doc):
     case = doc.get('case') or doc
     res = ctx.run_impl('c14_routes.py', {'mode': 'run', 'explore': True, 'depth': 5, 'routes': [[case['method'], case['path']]],
-                                         'callers': [[case['caller'], case['ctx']]]}, timeout=300)['result']
+                                         'callers': [[case['caller'], case['ctx']]], 'lookalikes': 'username' in case}, timeout=300)['result']
     out = []
     for r in res:
         for c in r['cases']:
             ok, cls = policy(r['method'], r['path'], c['caller'], c['ctx'])
-            out.append({'route': [r['method'], r['path']], 'handler': r['name'], 'caller': c['caller'], 'ctx': c['ctx'], 'body': c['body'],
+            if case.get('username') != c.get('username'):
+                continue
+            out.append({'route': [r['method'], r['path']], 'handler': r['name'], 'caller': c['caller'], 'username': c.get('username'), 'ctx': c['ctx'], 'body': c['body'],
                         'answers': c['answers'], 'policy_allows': ok, 'refusal_class': cls, 'outcome': c['outcome'], 'denied': c['denied'],
                         'violates': (not ok) and (not c['denied']), 'db_log': c['log']})
     return {'case': case, 'runs': out, 'violations': [o for o in out if o['violates']]}
